@@ -47,7 +47,7 @@ const (
 	graceSteps = 50
 	graceStep  = 10 * time.Millisecond
 	// caseDeadline bounds a whole script (a Strobe or Terminate that hangs).
-	caseDeadline = 20 * time.Second
+	caseDeadline = 10 * time.Second
 )
 
 // StrobeRec records one Strobe call (times in ns since the start of the run).
